@@ -317,16 +317,26 @@ Section Model.
 
   Definition mnemonic_lit : bytes := [109; 110; 101; 109; 111; 110; 105; 99].   (* "mnemonic" *)
 
-  (* NewSeed(mnemonic, password): no validation, the raw string is the PBKDF2 password *)
-  Definition new_seed (m p : str) : bytes := PBKDF2 m (mnemonic_lit ++ p) 2048 64.
+  (* NewSeed(mnemonic, password): no validation of the sentence.
+     [seedfix] = true: the repaired code, which first normalises the white space
+     (mnemonic = strings.Join(strings.Fields(mnemonic), " ")); false: the code as first
+     found, where the raw string is the PBKDF2 password. *)
+  Definition new_seed_gen (seedfix : bool) (m p : str) : bytes :=
+    let m' := if seedfix then join_sp (fields m) else m in
+    PBKDF2 m' (mnemonic_lit ++ p) 2048 64.
 
   (* NewSeedWithErrorChecking *)
-  Definition new_seed_with_error_checking (m p : str) : outcome bytes :=
+  Definition new_seed_with_error_checking_gen (seedfix : bool) (m p : str) : outcome bytes :=
     match mnemonic_to_byte_array false m with
-    | Ok _ => Ok (new_seed m p)
+    | Ok _ => Ok (new_seed_gen seedfix m p)
     | Err e => Err e
     | Panic => Panic
     end.
+
+  Definition new_seed : str -> str -> bytes := new_seed_gen true.
+  Definition new_seed_unfixed : str -> str -> bytes := new_seed_gen false.
+  Definition new_seed_with_error_checking : str -> str -> outcome bytes := new_seed_with_error_checking_gen true.
+  Definition new_seed_with_error_checking_unfixed : str -> str -> outcome bytes := new_seed_with_error_checking_gen false.
 
   (* ================================================================== specification
      BIP-39, "Generating the mnemonic": ENT in {128,160,192,224,256}; CS = ENT/32 first bits
@@ -415,3 +425,7 @@ Section Model.
   Definition bip39_seed (ws : list str) (p : str) : bytes :=
     PBKDF2 (join_sp ws) (mnemonic_lit ++ NFKD p) 2048 64.
 End Model.
+
+(* the only fact about SHA-256 that the theorems use: it returns at least one byte *)
+Definition hash_wf (H : bytes -> bytes) : Prop :=
+  forall d, exists h0 rest, H d = h0 :: rest /\ 0 <= h0 < 256.
